@@ -184,6 +184,7 @@ type c19Viol struct {
 // c19Execute runs one event string and returns the violations.
 func c19Execute(capPath, events string, trace bool) (viols []c19Viol, err error) {
 	vtime.Reset(time.Date(2024, 1, 2, 3, 4, 5, 0, time.UTC))
+	t0 := vtime.Now()
 	ts, err := newTermSession(capPath, true, []byte("PREVIEW-BYTES of the insert\n"))
 	if nil != err {
 		return nil, err
@@ -195,7 +196,7 @@ func c19Execute(capPath, events string, trace bool) (viols []c19Viol, err error)
 	ts.output()
 	m := &c19Model{}
 	add := func(sig, what string, i int) {
-		viols = append(viols, c19Viol{Sig: sig, What: fmt.Sprintf("after %q (step %d, virtual time +%v): %s", events[:i+1], i+1, vtime.Now().Sub(time.Date(2024, 1, 2, 3, 4, 5, 0, time.UTC)), what), Events: events[:i+1]})
+		viols = append(viols, c19Viol{Sig: sig, What: fmt.Sprintf("after %q (step %d, virtual time +%v): %s", events[:i+1], i+1, vtime.Now().Sub(t0), what), Events: events[:i+1]})
 	}
 	for i := 0; i < len(events); i++ {
 		e := events[i]
@@ -227,6 +228,11 @@ func c19Execute(capPath, events string, trace bool) (viols []c19Viol, err error)
 		case 'J':
 			ts.sh.VerifKey(0x0A) /* Ctrl+J: show locally what Ctrl+I would send. */
 			settle()
+		case 'w', 'W':
+			/* The system clock is set: ten minutes back / forward (NTP
+			step, resume from suspend).  No time passes. */
+			vtime.StepWall(map[byte]time.Duration{'w': -10 * time.Minute, 'W': 10 * time.Minute}[e])
+			vtime.Advance(0, settle)
 		default:
 			vtime.Advance(c19Advance[e], settle)
 		}
@@ -395,7 +401,17 @@ func c19Worker(args []string) int {
 		}
 		return true
 	}
-	rec(len(prefix))
+	if "list" == args[0] {
+		/* A list of complete event strings. */
+		for _, s := range strings.Split(prefix, ",") {
+			L, buf = len(s), []byte(s)
+			if !rec(L) {
+				break
+			}
+		}
+	} else {
+		rec(len(prefix))
+	}
 	w := bufio.NewWriter(realStdout)
 	json.NewEncoder(w).Encode(res)
 	w.Flush()
@@ -497,8 +513,39 @@ func c19(r *ev.Result, tier string) {
 	/* Beyond the enumeration's length: a flood that goes on for 23 s with
 	gaps just below the pause interval (nothing may come through, however
 	long it lasts), then calm. */
-	for _, long := range []string{"O" + strings.Repeat("bP", 12) + "cP", "O" + strings.Repeat("aP", 30) + "bPcPS"} {
-		out, err := runCttyWorker("c19w", fmt.Sprint(len(long)), long, base)
+	/* The system clock set back or forward at every point of every string
+	of four events that begins with Ctrl+O (the pause is two seconds of
+	calm, whatever the wall clock says meanwhile); each followed by a wait
+	and a chunk. */
+	var stepped []string
+	{
+		var gen func(s string)
+		gen = func(s string) {
+			if 4 == len(s) {
+				for pos := 1; pos <= 4; pos++ {
+					for _, w := range "wW" {
+						stepped = append(stepped, s[:pos]+string(w)+s[pos:]+"cP")
+					}
+				}
+				return
+			}
+			for _, e := range "OPbc" {
+				gen(s + string(e))
+			}
+		}
+		gen("O")
+	}
+	r.Set("strings_with_a_wall_clock_step", len(stepped))
+	longs := []string{"O" + strings.Repeat("bP", 12) + "cP", "O" + strings.Repeat("aP", 30) + "bPcPS"}
+	for i := 0; i < len(stepped); i += 64 {
+		longs = append(longs, "list:"+strings.Join(stepped[i:min(i+64, len(stepped))], ","))
+	}
+	for _, long := range longs {
+		wargs := []string{"c19w", fmt.Sprint(len(long)), long, base}
+		if l, ok := strings.CutPrefix(long, "list:"); ok {
+			wargs = []string{"c19w", "list", l, base}
+		}
+		out, err := runCttyWorker(wargs...)
 		var res struct {
 			Execs int       `json:"execs"`
 			Steps int       `json:"steps"`
